@@ -18,7 +18,8 @@ func init() {
 			"(L) agent-side shared state is only accessed under its mutex (lockset); (S) inventory of shared mutable maps / non-goroutine-safe objects: each is guarded, per-request, or read-only after construction; " +
 			"(A) no unchecked type assertion in per-request module code; (E) the polling loop waits on nothing a worker owns; (G) the reverse proxy keeps its default 502 error handler (or a custom one writes 502 on every path); " +
 			"(P) response maps handed to the serialiser goroutine are not aliased with maps the handler keeps mutating; (C) no channel with concurrent senders is closed, no unguarded blocking send in shim endpoints. " +
-			"Not decided: panics inside dependencies, resource exhaustion, latency of neighbours.",
+			"Not decided: panics inside dependencies, resource exhaustion, latency of neighbours. " +
+			"(N, second part) elements of pointer collections filled by encoding/json are nil-tested before use; (C, second part) a channel is only closed by its sole sending goroutine (or after WaitGroup.Wait).",
 		Assumptions: []string{
 			"VTA call graph is sound for this module (no reflect/unsafe dispatch)",
 			"dependencies do not call os.Exit/log.Fatal on per-request paths (only module source is scanned for exit calls)",
@@ -275,6 +276,9 @@ func runC07(c *Ctx) {
 			if res.Len() != 2 || res.At(1).Type().String() != "error" {
 				continue
 			}
+			if IsNewHelper(f) {
+				continue // part of its caller: the value flow (incl. nil) is followed there
+			}
 			switch res.At(0).Type().Underlying().(type) {
 			case *types.Pointer, *types.Interface:
 			default:
@@ -335,12 +339,14 @@ func runC07(c *Ctx) {
 	// ---- C07.N: nil messages crossing the shim's channels
 	c.Rule("C07.N", "a possibly-nil message sent on a shim channel is nil-checked by the receiving goroutine before it is dereferenced", 2)
 	ruleShimNilMessages(c, p, "C07.N")
+	ruleDecodedPointersChecked(c, p, "C07.N", "agent/websockets", "agent/utils", "agent")
 
 	// ---- C07.P / C07.C: shared obligations
 	c.Rule("C07.P", "published response maps are not aliased with maps the handler goroutine keeps mutating (= C03.P)", 2)
 	rulePublishedMaps(c, p, "C07.P")
 	c.Rule("C07.C", "channel typestate in the websocket shim: no close of a multi-sender channel, sends select on done (= C12.C/B)", 3)
 	ruleShimChannels(c, p, "C07.C", "C07.C")
+	ruleNoCloseUnderOtherSenders(c, p, "C07.C", "agent/utils", "agent/websockets", "agent")
 }
 
 // writesStatus: i writes HTTP status `code` (WriteHeader(code) or http.Error(..., code)).
@@ -422,11 +428,11 @@ func sharedStateInventory(c *Ctx, p *Prog, rule string, guards []*Guard, reach m
 					if kind == "" {
 						continue
 					}
-					id := rel + "." + name + "." + f.Name()
+					id := rel + "." + name + "." + objName(f)
 					if why := perRequestType(p, rel+"."+name, reach); why != "" {
 						owned[id] = why
 					}
-					classifyState(c, p, rule, id, kind, rel+"."+name, f.Name(), guarded, owned)
+					classifyState(c, p, rule, id, kind, rel+"."+name, objName(f), guarded, owned)
 				}
 			}
 		}
@@ -497,7 +503,7 @@ func perRequestType(p *Prog, typ string, reach map[*ssa.Function][]*ssa.Function
 			if _, ok := reach[fn]; !ok {
 				return ""
 			}
-			sites = append(sites, FuncName(a.Parent()))
+			sites = append(sites, FuncName(Owner(a)))
 		}
 	}
 	if len(sites) == 0 {
